@@ -402,6 +402,9 @@ void UtilContext::print16(const char *token)
 
     printf(" %04x", num);
 
+    // Stop here if the next address is past the end (it can wrap to 0).
+    if (end - start <= 2) { break; }
+
     start = start + 2;
   }
 
@@ -465,6 +468,9 @@ void UtilContext::print32(const char *token)
     }
 
     printf(" %08x", num);
+
+    // Stop here if the next address is past the end (it can wrap to 0).
+    if (end - start <= 4) { break; }
 
     start = start + 4;
   }
